@@ -447,7 +447,10 @@ pub fn render_float(
 	// over to the wholes.  We operate on the absolute numbers, so that we
 	// don't have trouble with the rounding direction.
 	let denominator = 10.0f64.powi(i32::from(precision));
-	let numerator = n.abs().mul_add(denominator, 0.5);
+	// Not mul_add: fused operation rounds differently from the reference implementation,
+	// i.e "%.17f" % 0.05 should end with 0, not with 1
+	#[allow(clippy::suboptimal_flops)]
+	let numerator = n.abs() * denominator + 0.5;
 	let whole = (numerator / denominator).floor();
 	let frac = numerator.floor() % denominator;
 
